@@ -445,7 +445,16 @@ func (c *Conn) Next() (Item, bool) {
 	select {
 	case it := <-c.items:
 		return it, true
-	case <-time.After(Watchdog):
+	case <-time.After(nextBudget):
+		// the server neither answered nor closed: reported by the caller; do not let every
+		// following case of this run wait for the full watchdog again
+		nextExpired++
+		switch {
+		case nextExpired > 5:
+			nextBudget = 100 * time.Millisecond
+		default:
+			nextBudget = time.Second
+		}
 		return Item{}, false
 	}
 }
@@ -644,6 +653,8 @@ func AudioOnlySdp(actl string) string {
 // reaches within microseconds.  Once a wait has expired (something leaks: a finding is reported by
 // the caller) later waits are cut short so that the run still ends in reasonable time.
 var waitBudget = Watchdog
+var nextBudget = Watchdog
+var nextExpired int
 var waitExpired int
 
 // WaitUntil polls cond (no sleep longer than 100µs) until it holds or the budget expires.
